@@ -818,7 +818,7 @@ def rename_symbols(model, mapping):
   return m
 
 
-def gen_nested_same_start(rng, reg0=True):
+def gen_nested_same_start(rng, reg0=True, leading=False):
   """A modifier whose argument is a range '>X' / '>=X' around another modifier, one of whose own arguments
   starts at the same X with the other marker: at r == X exactly the two levels disagree about who acts."""
   X = rng.choice([0.0, 0.5, 1.0, 1.5, 2.0])
@@ -829,6 +829,15 @@ def gen_nested_same_start(rng, reg0=True):
     inner_args.append(leaf())
   rng.shuffle(inner_args)
   inner = {"k": rng.choice(["sum", "product", "sum"]), "a": inner_args}
+  if leading:
+    # the shape a "flatten sum(sum(a, b), c) into sum(a, b, c)" rewrite would touch: the nested modifier comes FIRST, is of
+    # the outer modifier's kind, starts exclusively ('>X'), and each of its arguments has its own start at or above X, one
+    # of them inclusively AT X
+    kind = rng.choice(["sum", "product", "sum"])
+    inner_args = [{"k": "ranges", "parts": [[">=", X, leaf()]]}, {"k": "ranges", "parts": [[rng.choice(MARKERS), rng.choice([X, X + 0.5]), leaf()]]}]
+    rng.shuffle(inner_args)
+    wrapped = {"k": "ranges", "parts": [[">", X, {"k": kind, "a": inner_args}]]}
+    return {"k": kind, "a": [wrapped, {"k": "ranges", "parts": [[">=", min(X, 0.0), leaf()]]}]}, X
   wrapped = {"k": "ranges", "parts": [[m_outer, X, inner]]}
   others = [{"k": "ranges", "parts": [[">=", min(X, 0.0), leaf()]]}]
   if rng.random() < 0.5:
